@@ -119,6 +119,14 @@ CHECKS["C16"] = dict(
     note=RUN_NOTE + "'Bodies never receive context arguments' is observed (a generated body receiving one would raise TypeError), not modelled; with_prevent_further_calls is checked on the implementation only.",
     ref="6/C16")
 
+CHECKS["C17"] = dict(
+    technique="Coq proof (index of a stored merge chain = overlay of the links' own dictionaries, by induction on the chain; own/from-parent flags) + source facts (which index an in-process parent contributes) + differential runs over chains x parent provenances x staging kinds",
+    text="Theorems over Storage/Partition.v: a partition reads back with exactly its keys and values; one merge = parent entries marked from_parent overlaid by own keys; for chains of any length, whether each parent was read back from the store or taken from this process, "
+         "lookup in the stored index = the overlay of the links (own keys win, parent-only keys remain); refutation when an in-process parent only remembers the keys it wrote itself. Implementation: random chains of length 0-4 with overlapping keys, in-memory / on-disk staging, "
+         "parent provenance {first call in this process, disk, memory cache}; every link read back four ways and compared with the model and the overlay law; parents re-read after their children are stored.",
+    note="Member values are small ints / strings / arrays / None identified by embedded ids; pickle fidelity of members is C02's oracle.",
+    ref="6/C17")
+
 NOT_YET = {}
 
 
